@@ -14,11 +14,66 @@ from simkit.runner import RunOutcome
 def shallow_config(ch: Choices) -> GenConfig:
     feats = (set(ALL_FEATURES) | {"noprov"}) - {"forkjoin", "async", "errors", "catch", "catchall",
                                                  "tags"}
+    p_error = 0.0
+    if ch.coin(0.4, "caught-failures"):
+        # failures handled by catch_all beneath shallow parents: failed jobs (and what ran
+        # beneath them) belong to the recorded call tree as well.  (catch itself is left out: its
+        # own decision cache is the known C02 finding.)
+        feats |= {"errors", "catchall"}
+        p_error = 0.8
     return GenConfig(
-        features=feats, p_error=0.0, modes=("thread", "thread", "process"), p_dup=0.25,
+        features=feats, p_error=p_error, modes=("thread", "thread", "process"), p_dup=0.25,
         max_tasks=6, max_depth=2, max_fanout=2, min_tasks=3,
         task_options=[{"check_valid": "shallow"}], p_task_option=0.6,
     )
+
+
+def gen_caught_failure_program(ch: Choices):
+    """
+    Targeted family: a shallow-validity task whose subtree contains a job that *failed through a
+    child* (mid -> leaf raises), the failure handled by catch_all one or two levels above, next
+    to jobs that succeed.  Built directly as a program AST so that the usual edits apply.
+    """
+    from simkit.progs import Program, TaskDef
+
+    prog = Program()
+
+    def task(idx, params, ret="int", leaf=False, **options):
+        t = TaskDef(idx)
+        t.params = [(n, "int", None) for n in params]
+        t.ret = ret
+        t.leaf = leaf
+        t.options.update(options)
+        prog.tasks.append(t)
+        return t
+
+    shallow_at = ch.choice(3, "shallow-at")        # which ancestor carries check_valid=shallow
+    deep = bool(ch.choice(2, "mid-depth"))         # mid -> mid2 -> leaf, or mid -> leaf
+    t0 = task(0, [], **({"check_valid": "shallow"} if shallow_at == 0 else {}))
+    top = task(1, ["a"], ret="list", **({"check_valid": "shallow"} if shallow_at >= 1 else {}))
+    mid = task(2, ["a"], **({"check_valid": "shallow"} if shallow_at == 2 and ch.coin(0.5, "mid-shallow") else {}))
+    mid2 = task(3, ["a"])
+    bad = task(4, ["a"], leaf=True)
+    ok = task(5, ["a"], leaf=True)
+    rec = task(6, ["vals"], leaf=True)
+    rec.params = [("vals", "errlist", None)]
+    rec.recover = True
+    bad.raises = ("ValueError", "boom-t4")
+    bad.body = ("mix", "t4", [("par", "a")])
+    ok.body = ("mix", "t5", [("par", "a")])
+    rec.body = ("mix", "t6", [("par", "vals")])
+    mid2.body = ("op", "+", ("call", 4, [("par", "a")], [], {}), ("lit", 1))
+    inner = ("call", 3, [("par", "a")], [], {}) if deep else ("call", 4, [("par", "a")], [], {})
+    mid.body = ("op", "+", inner, ("call", 5, [("lit", 2)], [], {})) if ch.coin(0.5, "mid-also-ok") \
+        else ("op", "+", inner, ("lit", 3))
+    items = [("call", 2, [("par", "a")], [], {}), ("call", 5, [("par", "a")], [], {})]
+    if ch.coin(0.5, "second-failing-item"):
+        items.append(("call", 2, [("lit", 7)], [], {}))
+    top.body = ("catchall", items, "ValueError", 6)
+    t0.body = ("idx", ("call", 1, [("lit", ch.choice(3, "arg"))], [], {}), 0) \
+        if False else ("applyf", "hsum", [("call", 1, [("lit", ch.choice(3, "arg"))], [], {})])
+    prog.features = {"catchall", "errors", "ops", "applyf"}
+    return prog
 
 
 def subtree_closure_violations(db: str) -> list[tuple]:
@@ -77,7 +132,11 @@ class C03(EngineACheck):
 
     def run_one(self, ch: Choices) -> RunOutcome:
         out = RunOutcome()
-        prog = Gen(ch, shallow_config(ch)).generate()
+        if ch.choice(4, "program-family") == 3:
+            prog = gen_caught_failure_program(ch)
+            out.probe("caught_failure_family")
+        else:
+            prog = Gen(ch, shallow_config(ch)).generate()
         sched_seed = ch.choice(1 << 30, "sched-seed")
         seed2 = ch.choice(1 << 30, "sched-seed-2")
         seed3 = ch.choice(1 << 30, "sched-seed-3")
@@ -86,6 +145,12 @@ class C03(EngineACheck):
         if not cands:
             return out
         victim = cands[ch.choice(len(cands), "edit-task")]
+        raising = [t for t in edited.tasks if t.raises and t.idx != 0]
+        if raising and ch.coin(0.7, "edit-the-failing-task"):
+            # the edit repairs the failing task
+            victim = raising[ch.choice(len(raising), "edit-raising")]
+            victim.raises = None
+            out.probe("edits_of_a_failed_task")
         histsim.apply_variant(victim, 1 + ch.choice(3, "variant"))
         max_points = 8 if self.tier == "quick" else 10 ** 6
         n_err = 3 if self.tier == "quick" else 25
